@@ -164,6 +164,13 @@ def patched(mods, extra=()):
                 if hasattr(m, attr):
                     saved.append((m, attr, getattr(m, attr)))
                     setattr(m, attr, val)
+        # numba-compiled module-level functions (the kernel and any private helper it calls) are traced through
+        # their Python source: a compiled helper cannot take symbolic arguments
+        for m in mods:
+            for attr, val in list(vars(m).items()):
+                if hasattr(val, 'py_func') and callable(getattr(val, 'py_func', None)):
+                    saved.append((m, attr, val))
+                    setattr(m, attr, val.py_func)
         for m, attr, val in extra:
             saved.append((m, attr, getattr(m, attr)))
             setattr(m, attr, val)
